@@ -10,7 +10,7 @@ fn variants() -> Vec<(&'static str, Vec<&'static str>)> {
     vec![("default", vec![]), ("no-sig-flattening", vec!["--no-sig-flattening"]), ("autodrop", vec!["--autodrop-borrows=yes"])]
 }
 
-const VALUE_SIGS: &[&str] = &["value-changed-export-to-import", "value-changed-import-to-export", "undecodable-value", "import-call-count", "import-arity", "import-unexpected", "import-name", "load-error"];
+const VALUE_SIGS: &[&str] = &["value-changed-in-implementation", "value-changed-export-to-import", "value-changed-import-to-export", "undecodable-value", "import-call-count", "import-arity", "import-unexpected", "import-name", "load-error"];
 const HEAP_SIGS: &[&str] = &["heap-leak", "heap-misuse"];
 
 pub fn run(check: &mut Check) {
